@@ -502,6 +502,34 @@ def check(w, case, b, gens):
             held = _held(node)
             if held:
                 viol.append(('C08.2', '%s still holds %d packet(s) after the simulation ran out of events' % (nm, held)))
+        # a byte-limited port may discard a packet only when it does not fit (the documented rule itself)
+        if t == 'Port' and node.spec.get('lb') and node.spec.get('qlimit') is not None and w.quiescent and \
+                not any(v[0].startswith('C08.4') for v in viol):
+            left = {}
+            for g, tt, pkt, f, tap in O:
+                left.setdefault(pkt, []).append(g)
+            evs2 = []
+            taken = {}
+            for g, tt, pkt, f in I:
+                k = taken.get(pkt, 0)
+                taken[pkt] = k + 1
+                gone = left.get(pkt, [])
+                evs2.append((g, 'in', f[3], pkt, gone[k] if k < len(gone) else None))
+            for g, tt, pkt, f, tap in O:
+                evs2.append((g, 'out', f[3], pkt, None))
+            evs2.sort(key=lambda e: e[0])
+            heldb = 0
+            for g, what, size, pkt, outg in evs2:
+                if what == 'out':
+                    heldb -= size
+                    continue
+                fits = heldb + size <= node.spec['qlimit']
+                if outg is not None:
+                    heldb += size
+                elif fits:
+                    viol.append(('C08.2', '%s (byte limit %r) discarded %s (%d bytes) although it held only %d bytes' %
+                                 (nm, node.spec['qlimit'], pkt, size, heldb)))
+                    break
         # per-flow order
         pos = {}
         for k, (g, tt, pkt, f) in enumerate(I):
